@@ -34,6 +34,9 @@ pub struct Case {
     /// line width of each sample's FASTA (cyclic; 0 = unwrapped)
     #[serde(default)]
     pub wrap: Vec<u8>,
+    /// soft-masking: cyclic lower-case mask applied to every sample's records (case must not matter)
+    #[serde(default)]
+    pub lower: Vec<bool>,
 }
 
 fn case_strategy() -> BoxedStrategy<Case> {
@@ -48,9 +51,10 @@ fn case_strategy() -> BoxedStrategy<Case> {
                 prop::bool::weighted(0.15),
                 prop::bool::weighted(0.5),
                 proptest::collection::vec(prop_oneof![2 => Just(0u8), 1 => 1u8..90], 1..4),
+                prop_oneof![2 => Just(Vec::<bool>::new()), 1 => proptest::collection::vec(any::<bool>(), 3..40)],
             )
         })
-        .prop_map(|(k, n_samples, contigs, sites, orient, exact_k_contig, one_step, wrap)| Case { k, n_samples, contigs, sites, orient, exact_k_contig, one_step, wrap })
+        .prop_map(|(k, n_samples, contigs, sites, orient, exact_k_contig, one_step, wrap, lower)| Case { k, n_samples, contigs, sites, orient, exact_k_contig, one_step, wrap, lower })
         .boxed()
 }
 
@@ -124,7 +128,16 @@ fn materialise(c: &Case) -> Result<Mat, String> {
         let (ob, sk) = c.orient[j % c.orient.len()];
         let mut order: Vec<usize> = (0..recs.len()).collect();
         order.sort_by_key(|i| (sk.wrapping_mul(*i as u16 + 1).wrapping_add(sk >> 3), *i));
-        let recs2: Vec<Vec<u8>> = order.iter().map(|i| if (ob >> (i % 8)) & 1 == 1 { model::revcomp(&recs[*i]) } else { recs[*i].clone() }).collect();
+        let mut recs2: Vec<Vec<u8>> = order.iter().map(|i| if (ob >> (i % 8)) & 1 == 1 { model::revcomp(&recs[*i]) } else { recs[*i].clone() }).collect();
+        if !c.lower.is_empty() {
+            for r in recs2.iter_mut() {
+                for (q, b) in r.iter_mut().enumerate() {
+                    if c.lower[(q + j) % c.lower.len()] {
+                        *b = b.to_ascii_lowercase();
+                    }
+                }
+            }
+        }
         // names deliberately not in sorted order (the output must follow input order, not name order)
         samples.push((format!("{}{j}", ["m", "c", "x", "a", "t", "g", "p", "e", "z", "k"][j % 10]), recs2));
     }
@@ -214,12 +227,13 @@ fn check(c: &Case, ctx: &Ctx) -> Outcome {
             if k >= 33 { cl.push("128bit"); }
             if m.ancestor.len() >= 2 { cl.push("multi_contig"); }
             if (0..m.samples.len()).any(|i| width_of(c, i).is_some()) { cl.push("wrapped_fasta"); }
+            if !c.lower.is_empty() { cl.push("soft_masked_lower_case"); }
             pass(true, key_of(&(k, &m.ancestor, &m.sites, &m.samples)), cl)
         }
     }
 }
 
-const RULE: &str = "generated: 1-3 ancestor contigs (length k..5k, one of exactly k with a central site in 15% of cases) built by greedy extension so that every split k-mer is unique on both strands and none is self-reverse-complement, also after substitution (checked; residual rejections counted); 1-6 substitution sites more than (k-1)/2 apart and >= (k-1)/2 from the contig ends, 2-4 alleles over 2-10 samples with >=2 alleles present; every sample's contigs independently reverse-complemented and shuffled, its FASTA unwrapped or wrapped at a generated width; all k. Oracle: multiset of output columns (normalised up to complement) == planted columns, names in input order, equal lengths. Every accepted case has >=1 site (non-trivial); distinct by (k, ancestor, sites, samples).";
+const RULE: &str = "generated: 1-3 ancestor contigs (length k..5k, one of exactly k with a central site in 15% of cases) built by greedy extension so that every split k-mer is unique on both strands and none is self-reverse-complement, also after substitution (checked; residual rejections counted); 1-6 substitution sites more than (k-1)/2 apart and >= (k-1)/2 from the contig ends, 2-4 alleles over 2-10 samples with >=2 alleles present; every sample's contigs independently reverse-complemented and shuffled, its FASTA unwrapped or wrapped at a generated width, upper-case or soft-masked with a generated lower-case mask; all k. Oracle: multiset of output columns (normalised up to complement) == planted columns, names in input order, equal lengths. Every accepted case has >=1 site (non-trivial); distinct by (k, ancestor, sites, samples).";
 
 fn stages(tier: Tier) -> Vec<Box<dyn Stage>> {
     vec![gen_stage_show("align", RULE, tier.pick(3200, 40_000), 250, case_strategy, check, |c| match materialise(c) {
